@@ -214,6 +214,34 @@ def work(task):
         explore(lambda src: with_source(src, 'rand()', {}), b['FULLBITS'], b['HORIZON'], on_exec)
         res.count('inputs')
         res.outcome('unit:' + str(len(seen)))
+    elif kind == 'big-list':
+        # scale probe: host lists at and beyond the container cap (a host may bind any list; the cap limits what programs BUILD)
+        api = snapshot.api()
+        for n in (9999, 10000, 10001, 12000):
+            for which, text in (('choice', 'rand(l)'), ('choice-method', 'l | rand'), ('shuffle', 'shuffle(l)'), ('shuffle-pipe', 'l | shuffle'), ('shuffle-len', 'l.shuffle() | len')):
+                original = [api.Decimal(i) for i in range(n)]
+                lst = list(original)
+                out = with_source(Scripted([], b['FULLBITS'], 0), text, {'l': lst})
+                res.count('executions')
+                res.count('inputs')
+                w = {'program': text, 'list': [f'{n} distinct numbers'], 'answers': [], 'big_list': n}
+                if out[0] == 'exc':
+                    res.violation(f'{which}:raises:{type(out[1]).__name__}:long-list', f'{text} raised for a host list of {n} elements',
+                                  dict(w, expected='a result', observed=repr(out[1])[:200]))
+                    continue
+                v = out[1]
+                if len(lst) != n or any(x is not y for x, y in zip(lst, original)):
+                    res.violation(f'{which}:argument-changed:long-list', f'{text} changed its argument', dict(w, expected='unchanged', observed=f'{len(lst)} elements'))
+                if which.startswith('choice'):
+                    ok = any(v is x for x in original)
+                elif which == 'shuffle-len':
+                    ok = v == n
+                else:
+                    ok = isinstance(v, list) and v is not lst and sorted(map(id, v)) == sorted(map(id, original))
+                if not ok:
+                    res.violation(f'{which}:wrong-result:long-list', f'{text} on a host list of {n} elements did not return an element / a permutation in a new list',
+                                  dict(w, expected='an element / a permutation', observed=repr(v)[:120]))
+                res.outcome(f'big:{which}:{n}')
     elif kind == 'list':
         _, items, _b = task
         api = snapshot.api()
@@ -281,7 +309,7 @@ def work(task):
 def main(tier, seed, t0):
     b = BOUNDS[tier]
     snapshot.api()
-    tasks = [('unit', b)]
+    tasks = [('unit', b), ('big-list', b)]
     for a in range(-3, 5):
         for bb in range(a, 5):
             for vi in range(6):
